@@ -88,6 +88,48 @@ def askRemove (s : List AskKey) (key : String) : List AskKey :=
 /-- the documented order: priority descending, then creation time ascending -/
 def askBefore (a b : AskKey) : Bool := decide (a.prio > b.prio) || (a.prio == b.prio && decide (a.ctime < b.ctime))
 
+/-! ### the priority of a queue (queue.go: priorityValueByPolicy, recalculatePriority; application.go: askMaxPriority) -/
+
+def minPrio : Int := -2147483648
+def maxPrio : Int := 2147483647
+
+/-- the clamp of priorityValueByPolicy: the sum is taken in int64 and cut to the int32 range -/
+def clampPrio (x : Int) : Int := if x > maxPrio then maxPrio else if x < minPrio then minPrio else x
+
+/-- `priorityValueByPolicy(policy, offset, priority)`: MinPriority stays, a fence reports its offset, else offset + priority
+    saturating at the int32 bounds -/
+def priorityValue (fence : Bool) (offset prio : Int) : Int :=
+  if prio == minPrio then prio else if fence then offset else clampPrio (offset + prio)
+
+/-- the maximum recalculatePriority / updateAskMaxPriority take, starting from MinPriority -/
+def maxPriority (items : List Int) : Int := items.foldl (fun curr v => max v curr) minPrio
+
+/-- a leaf queue: policy, offset and per application the priorities of its pending asks -/
+structure PrioLeaf where
+  fence : Bool
+  offset : Int
+  apps : List (List Int)
+  deriving Repr, DecidableEq
+
+/-- currentPriority of a leaf: the largest askMaxPriority of its applications -/
+def PrioLeaf.current (l : PrioLeaf) : Int := maxPriority (l.apps.map maxPriority)
+/-- what the leaf reports to its parent (and GetCurrentPriority) -/
+def PrioLeaf.value (l : PrioLeaf) : Int := priorityValue l.fence l.offset l.current
+
+/-- a child queue of the sorted parent: a leaf, or a parent of leaf queues -/
+structure PrioQueue where
+  fence : Bool
+  offset : Int
+  leaf : Bool
+  apps : List (List Int)
+  kids : List PrioLeaf
+  deriving Repr, DecidableEq
+
+def PrioQueue.current (q : PrioQueue) : Int :=
+  if q.leaf then maxPriority (q.apps.map maxPriority) else maxPriority (q.kids.map (·.value))
+/-- `GetCurrentPriority()`: the key sortQueue reads -/
+def PrioQueue.value (q : PrioQueue) : Int := priorityValue q.fence q.offset q.current
+
 /-! ### children a parent queue offers to the scheduling cycle (queue.go: sortQueues, GetFairMaxResource) -/
 
 /-- `internalGetFairMaxResource(limit)`: a clone of the parent's value with the queue's own max merged over it (the
@@ -193,5 +235,59 @@ def toQKey (rank : Child → Int) (c : Child) : QKey := ⟨c.name, c.prio, rank 
 def fairMaxSliceShared (parentFair : ORes) (cands : List Child) : List ORes :=
   let acc := cands.foldl (fun a c => fairMaxMerge a c.max) parentFair
   cands.map (fun _ => acc)
+
+/-! ### the score of a node (node.go: GetResourceUsageShares, refreshAvailableResource; nodesorting.go: absResourceUsage) -/
+
+/-- what the node sorting policies read of a node -/
+structure NodeKey where
+  id : String
+  cap : Res          -- totalResource
+  allocated : Res
+  occupied : Res
+  deriving Repr, DecidableEq
+
+/-- `refreshAvailableResource`: total - allocated - occupied, PRUNED (a type without anything left has no entry) -/
+def nodeAvail (n : NodeKey) : Res := prune (sub (some (sub (some n.cap) (some n.allocated))) (some n.occupied))
+
+def fracAdd (a b : Share) : Share := ⟨a.num * b.den + b.num * a.den, a.den * b.den⟩
+
+/-- the weighted resource types of a capacity: (weight, type, total) for every type of the capacity with a weight other
+    than zero (`absResourceUsage` skips the others); a total of zero is skipped (NaN share) -/
+def weightedTypes (weights cap : Res) : List (Int × String × Int) :=
+  cap.filterMap (fun (p : String × Int) => match weights.get? p.1 with
+    | some w => if w == 0 || p.2 == 0 then none else some (w, p.1, p.2)
+    | none => none)
+
+/-- the usage share of one type as `GetResourceUsageShares` computes it from the pruned available resource:
+    1 - available/total, a MISSING available entry reads 0, i.e. the type is fully used -/
+def usageShare (avail : Res) (k : String) (total : Int) : Share := ⟨total - avail.getD k, total⟩
+
+/-- Σ weight · share over the weighted types, as an exact fraction -/
+def weightedUsageSum (avail : Res) (terms : List (Int × String × Int)) : Share :=
+  terms.foldl (fun (acc : Share) (t : Int × String × Int) => fracAdd acc ⟨t.1 * (usageShare avail t.2.1 t.2.2).num, (usageShare avail t.2.1 t.2.2).den⟩) (⟨0, 1⟩ : Share)
+
+/-- `absResourceUsage(node, weights)`: the weighted mean of the usage shares (0 without weighted type) -/
+def nodeUsage (weights : Res) (n : NodeKey) : Share :=
+  let terms := weightedTypes weights n.cap
+  let tw := (terms.map (·.1)).foldl (· + ·) 0
+  if tw == 0 then ⟨0, 1⟩
+  else let s := weightedUsageSum (nodeAvail n) terms; ⟨s.num, s.den * tw⟩
+
+/-- `ScoreNode`: fair = the usage, binpacking = 1 - usage -/
+def nodeScore (binpacking : Bool) (weights : Res) (n : NodeKey) : Share :=
+  let u := nodeUsage weights n
+  if binpacking then ⟨u.den - u.num, u.den⟩ else u
+
+/-- the order of the sorted node tree: ascending score, ties by node id -/
+def nodeBefore (binpacking : Bool) (weights : Res) (a b : NodeKey) : Bool :=
+  shareLt (nodeScore binpacking weights a) (nodeScore binpacking weights b) ||
+  (shareEq (nodeScore binpacking weights a) (nodeScore binpacking weights b) && decide (a.id < b.id))
+
+def nodeOrder (binpacking : Bool) (weights : Res) (nodes : List NodeKey) : List NodeKey :=
+  stableSort (nodeBefore binpacking weights) nodes
+
+/-- the model covers capacities that are positive for every weighted type and positive weights -/
+def nodeModelled (weights : Res) (n : NodeKey) : Bool :=
+  (weightedTypes weights n.cap).all (fun t => decide (0 < t.1) && decide (0 < t.2.2))
 
 end Yk
